@@ -106,6 +106,39 @@ def check(spec):
         other = _fn(mod, spec["other"])
         a, b = _steps(fdef), _steps(other)
         out.append(_ob(mod.path, qual, kind, 1, fdef.lineno, "%s and %s perform the same self._set_* / build steps in the same order (%s vs %s)" % (qual, spec["other"], a, b), a == b and len(a) > 0))
+    elif kind == "no-alias-mutation":
+        # objects owned by the operands (self.X / other.X / parameter attributes) are not written through a direct alias
+        owners = set(spec.get("owners", ["self", "other"]))
+        aliases = {}
+        for node in ast.walk(fdef):
+            if isinstance(node, ast.Assign) and len(node.targets) == 1 and isinstance(node.targets[0], ast.Name):
+                v = node.value
+                if isinstance(v, ast.Attribute) and isinstance(v.value, ast.Name) and v.value.id in owners:
+                    aliases[node.targets[0].id] = ast.unparse(v)
+        def owned(e):
+            # expression denotes an operand-owned object (directly or through an alias)
+            if isinstance(e, ast.Attribute) and isinstance(e.value, ast.Name) and e.value.id in owners:
+                return ast.unparse(e)
+            if isinstance(e, ast.Name) and e.id in aliases:
+                return aliases[e.id] + " (alias %s)" % e.id
+            return None
+        bad = []
+        for node in ast.walk(fdef):
+            if isinstance(node, (ast.Assign, ast.AugAssign)):
+                for t in (node.targets if isinstance(node, ast.Assign) else [node.target]):
+                    if isinstance(t, ast.Subscript) and owned(t.value):
+                        bad.append((node.lineno, "item assignment into %s" % owned(t.value)))
+            elif isinstance(node, ast.Call) and isinstance(node.func, ast.Attribute) and node.func.attr in (MUTATORS | {"update", "append", "extend", "pop", "clear", "setdefault", "add", "remove", "insert"}) and owned(node.func.value):
+                bad.append((node.lineno, "%s() on %s" % (node.func.attr, owned(node.func.value))))
+            elif isinstance(node, ast.Delete):
+                for t in node.targets:
+                    if isinstance(t, ast.Subscript) and owned(t.value):
+                        bad.append((node.lineno, "del on %s" % owned(t.value)))
+        for line, what in bad:
+            n += 1
+            out.append(_ob(mod.path, qual, kind, n, line, "operand-owned object written: %s" % what, False))
+        n += 1
+        out.append(_ob(mod.path, qual, kind, n, fdef.lineno, "%s never writes into an object owned by %s (directly or through an un-copied alias)" % (qual, "/".join(sorted(owners))), not bad))
     elif kind == "same-branch":
         # the branch guarded by the given test is textually identical in two methods (hand-duplicated code that must stay in step)
         other = _fn(mod, spec["other"])
